@@ -230,6 +230,16 @@ fn run_block<V: Val>(
                 ev_search(t, h2, &p2, m, "slice", hay, 0);
             }
         }
+        // a second round trip, of the restored automaton
+        if cx.prop == "C09" {
+            let (h3, p3) = ev_roundtrip(t, h2, &p2, &[0xff]);
+            ev_table(t, h3, &p3, false, &[]);
+            if let Some(hay) = hays.first() {
+                for m in &methods {
+                    ev_search(t, h3, &p3, m, "slice", hay, 0);
+                }
+            }
+        }
     }
     Some((h, pma))
 }
@@ -903,6 +913,12 @@ fn fam_lazy(t: &mut Tracer, rng: &mut Rng, _cx: &Ctx) {
             its[k].2 = true;
         }
         its[k].3 += 1;
+    }
+    // an exhausted iterator polled again stays exhausted
+    for k in 0..its.len() {
+        let (m, pulled, probes, hops) = its[k].1.step();
+        let res: Vec<Value> = m.iter().map(MatchRec::json).collect();
+        t.emit(json!({"ev": "next", "it": its[k].0, "res": res, "pulled": pulled, "probes": probes, "hops": hops}));
     }
 }
 
